@@ -194,9 +194,10 @@ def run_shard(ctx):
                 for lab in labels[i]:
                     if lab is None:
                         continue
-                    for rep in range(3):
+                    for rep in range(4):
                         opts = option_set(rng)
-                        scripts = random_scripts(rng, n)
+                        # half of the twins solve a period that faults, so that every forwarded option matters
+                        scripts = random_scripts(rng, n, i, rng.choice(['warn', 'nan', 'pinf', 'exc', 'nonconv'])) if rep % 2 else random_scripts(rng, n)
                         case = dict(span_kind=spec.kind, n=n, period=i, label=repr(lab), opts=opts, scripts={str(k): v for k, v in scripts.items()})
                         ctx.evaluation(case, nontrivial=True, sample=case)
                         A = make(Model, spec, scripts, opts['tol'])
